@@ -2,7 +2,7 @@
 # Copyright 2021 BBC
 # SPDX-License-Identifier: Apache-2.0
 
-from typing import Optional, Tuple
+from typing import List, Optional, Tuple
 from xml.etree.ElementTree import Element
 
 
@@ -33,6 +33,19 @@ def append_node(parent, node):
     Append *node* to *parent*.
     """
     parent.append(node)
+
+
+def move_nodes(parent: Element, nodes: List[Element], before: Optional[Element] = None):
+    """
+    Move *nodes* (children of *parent*) so that they appear, in the order given,
+    immediately before the child *before*, or at the end of *parent* if *before*
+    is ``None``. *before* must not be one of *nodes*.
+    """
+    for node in nodes:
+        parent.remove(node)
+    index = len(parent) if before is None else list(parent).index(before)
+    for i, node in enumerate(nodes, start=index):
+        parent.insert(i, node)
 
 
 def find_child(
